@@ -23,7 +23,7 @@ from harness.runner import Result, library_frame
 ID = "C19"
 LEVEL = "exploration"
 RULE = ("one case = (protocol, byte stream, two chunkings); streams are drawn from the protocol grammar (see module "
-        "docstring); distinct by fingerprint of the stream; non-trivial = the reference deframer drops at least one "
+        "docstring); distinct by fingerprint of (stream, chunkings); the deterministic sweep is distinct by construction; non-trivial = the reference deframer drops at least one "
         "frame (bad checksum / unknown command / impossible length) and delivers an item from a later frame, or the "
         "stream contains a LUBA length byte >= 20 at a frame's length position")
 ASSUMPTIONS = [
@@ -429,18 +429,20 @@ def stream_strategy(proto, with_malformed):
     seg = _luba_segment() if proto == "luba" else _sci_segment()
     trailer = _luba_trailer() if proto == "luba" else _sci_trailer()
     cuts = st.lists(st.integers(0, 4000), max_size=14)
-
-    def streams(seg):
-        return st.tuples(st.lists(seg, min_size=0, max_size=9),
-                         st.sampled_from(["none", "direct", "flushed", "flushed"]), trailer, cuts, cuts).map(
-            lambda t: _assemble(proto, *t))
-
+    keep = st.just(1)
     if with_malformed and proto == "luba":
-        # about one stream in 16 contains deliberately malformed-for-type frames (they are set aside)
-        dirty = streams(st.one_of(seg, seg, seg, _luba_malformed()))
-        clean = streams(seg)
-        return st.one_of([clean] * 15 + [dirty])
-    return streams(seg)
+        # deliberately malformed-for-type frames (those streams are set aside) are kept in about one stream
+        # in 40 only; elsewhere they are removed from the segment list before assembly
+        seg = st.one_of(seg, seg, seg, seg, seg, _luba_malformed())
+        keep = st.integers(0, 65535)
+
+    def build(t):
+        dirty = ((t[5] ^ 0x5BD1) * 40503) % 65521 % 40 == 0      # hashed: Hypothesis favours small integers
+        segs = t[0] if dirty else [x for x in t[0] if x[0] != "malformed"]
+        return _assemble(proto, segs, t[1], t[2], t[3], t[4])
+
+    return st.tuples(st.lists(seg, min_size=0, max_size=9),
+                     st.sampled_from(["none", "direct", "flushed", "flushed"]), trailer, cuts, cuts, keep).map(build)
 
 
 # ------------------------------------------------------------------------ shards ----
@@ -531,7 +533,8 @@ def _sweep_shard(arg):
         if set_aside(case):
             res.excluded["set-aside:%s:checksum-valid-frame-malformed-for-its-type" % case["proto"]] += 1
             continue
-        res.nontrivial()
+        if nontrivial(case):
+            res.nontrivial()
         for lab in classify(case):
             res.label(lab)
         for sig, msg in run_case(case):
@@ -541,7 +544,7 @@ def _sweep_shard(arg):
 
 def run(ctx):
     ctx.pmap(_sweep_shard, [(k, 16) for k in range(16)])
-    n_luba, n_sci = (2000, 800) if ctx.quick else (50000, 15000)
+    n_luba, n_sci = (2000, 800) if ctx.quick else (28000, 12000)
     shards = [("luba", ctx.seed * 1000 + k, n_luba) for k in range(12)] + \
              [("sci", ctx.seed * 1000 + 500 + k, n_sci) for k in range(4)]
     ctx.pmap(_hyp_shard, shards)
